@@ -624,6 +624,10 @@ def choose_cps(rng, sites, marker, total_steps, k, site_first_p=0.7):
     return sorted(cps)
 
 
+import logging
+logging.getLogger("Rx").setLevel(logging.ERROR)
+
+
 def run_sim(body, seed, cps=(), record=False, spurious_p=0.0, drift_p=0.0, trace_extra=(), wall=30.0, max_steps=400000, setup=None):
     """Run `body(sim, shim)` as the main workload thread under a fresh simulator with reactivex patched."""
     sim = Sim(seed, cps, record, spurious_p, drift_p, max_steps, trace_extra)
@@ -642,3 +646,33 @@ def interleaving_digest(sim):
     """distinct-interleaving measure: the sequence of (from, to, site) at context switches after the marker"""
     m = sim.marker or 0
     return tuple((a, b, s) for st, a, b, s in sim.switch_log if st >= m)
+
+
+def explore(sc, body_factory, out, **kw):
+    """Dry run (records pre-emption sites) + the real run with k change points chosen by site-first
+    sampling; a scenario that already carries "cps" (a replay) skips the dry run.
+    Returns (sim, cps).  body_factory() must return a fresh body(sim, shim) each time."""
+    sched = sc["sched"]
+    cps = sc.get("cps")
+    spurious = sched.get("spurious", 0.0)
+    drift = sched.get("drift", 0.0)
+    if cps is None:
+        if sched.get("k", 0) > 0:
+            dry = run_sim(body_factory(), sched["seed"], (), record=True, **kw)
+            cps = choose_cps(random.Random(sched["seed"] ^ 0x5DEECE66D), dry.sites, dry.marker or 0, dry.steps, sched["k"])
+            out.evals += 1
+        else:
+            cps = []
+    sim = run_sim(body_factory(), sched["seed"], cps, spurious_p=spurious, drift_p=drift, **kw)
+    out.steps += sim.steps
+    out.sim_time += max(0.0, sim.seconds())
+    for k, v in sim.faults.items():
+        if v:
+            out.faults[k] += v
+    return sim, cps
+
+
+def gen_sched(rng, ks=(0, 1, 2, 2, 3, 3), spurious_p=0.0, drift_p=0.0):
+    return {"seed": rng.getrandbits(32), "k": rng.choice(ks),
+            "spurious": rng.choice([0.0, spurious_p]) if spurious_p else 0.0,
+            "drift": rng.choice([0.0, 0.0, drift_p]) if drift_p else 0.0}
